@@ -22,7 +22,7 @@ RULES = {
     'R6': 'iter_create stores no unreferenced node pointer in the iterator: every node-pointer field is NULL, the map header (never freed), or referenced before the function returns',
     'R7': 'a node that iterators may be parked on stays linked while referenced: where the advance follows the parked node\'s own links (hashtable), the node is unlinked only at its last dereference (in the destroy function reached with refcount 0) or at map teardown',
 }
-FLOORS = {'R1': 6, 'R2': 3, 'R3': 2, 'R4': 6, 'R5': 2, 'R6': 4, 'R7': 2, 'R8': 9, 'R9': 1, 'R10': 3, 'R11': 6}
+FLOORS = {'R1': 9, 'R2': 3, 'R3': 2, 'R4': 6, 'R5': 2, 'R6': 4, 'R7': 2, 'R8': 9, 'R9': 1, 'R10': 3, 'R11': 6}
 
 IT = {
     'hashtable': dict(next='hashtable_iter_next', free='hashtable_iter_free', deref='hashtable_node_deref', node='hash_node',
@@ -47,6 +47,16 @@ def run(ctx):
     for name, m in IT.items():
         r1(ctx, name, m)
         r3(ctx, name, m)
+    for name, m in IT.items():
+        rec = prog.record(m['node'])
+        fl = [x for x in rec['fields'] if x['n'] == 'refcount']
+        if not fl:
+            raise AnalysisBroken('%s: struct %s has no refcount' % (name, m['node']))
+        bits = prog.type_info(fl[0]['ty']).get('bits') or (fl[0].get('bytes', 0) * 8)
+        ctx.check('R1', '%s:count-holds-any-number-of-iterators' % name, bits >= 32, '%s (struct %s)' % (IT[name]['next'], m['node']),
+                  'the per-node count has %s bits' % bits,
+                  'the per-node count of struct %s has %s bits: it is 1 for the map plus 1 per iterator positioned on the node (every fresh skiplist iterator sits on the header), so %d open iterators wrap it and the next one that moves on destroys a node the others - and the map - still use'
+                  % (m['node'], bits, 2 ** (bits or 1)))
     r2(ctx)
     r4(ctx)
     r5(ctx)
